@@ -146,6 +146,14 @@ def run_source(unit):
                 log.note(f'{clsn}/{pname}/{bg}: post-read code needs a concrete value ({str(e)[:60]}); not decided at this layer')
                 log['inconclusive'].append({'obligation': f'{clsn}/{pname}/{bg}', 'why': 'post-read code realises the value'})
             yield log.result()
+        if layer == 'reader' and isinstance(obj0.ParameterDict[pname], P.floatParameter) and prior_value(obj0.ParameterDict[pname]) is not None:
+            cfg = {'layer': layer, 'class': clsn, 'param': pname, 'background': '-', 'the parameter held another value before this read': True}
+            log = harness.UnitLog(cfg)
+            try:
+                _one_param(log, cfg, modn, clsn, pname, layer, '-', prior=True)
+            except core.Realize as e:
+                log['inconclusive'].append({'obligation': f'{clsn}/{pname}/prior', 'why': 'post-read code realises the value'})
+            yield log.result()
         if layer == 'module' and (clsn, pname) in ALIASES:
             cfg = {'layer': layer, 'class': clsn, 'param': pname, 'background': 'only-this-key', 'given under the accepted name': ALIASES[(clsn, pname)]}
             log = harness.UnitLog(cfg)
@@ -252,9 +260,19 @@ def background_inputs(obj, skip):
 ALIASES = {('WellBores', 'Nonvertical Length per Multilateral Section'): 'Total Nonvertical Length'}
 
 
-def _one_param(log, cfg, modn, clsn, pname, layer, bg, alias=None):
+def prior_value(p0):
+    """an in-range value different from the declared default and from the value a fresh object holds (a value an earlier read left behind)."""
+    lo, hi = float(p0.Min), float(p0.Max)
+    for cand in (lo + (hi - lo) / 4, lo + (hi - lo) / 2, lo, hi):
+        if math.isfinite(cand) and cand != p0.DefaultValue and cand != p0.value:
+            return cand
+    return None
+
+
+def _one_param(log, cfg, modn, clsn, pname, layer, bg, alias=None, prior=False):
     obj0, model0, mod = _make(modn, clsn)
     p0 = obj0.ParameterDict[pname]
+    pv = prior_value(p0) if prior and isinstance(p0, P.floatParameter) else None
     is_int = isinstance(p0, P.intParameter)
     name = p0.Name.strip()
     name_in = alias or name
@@ -277,6 +295,8 @@ def _one_param(log, cfg, modn, clsn, pname, layer, bg, alias=None):
         else:
             tok.proxy = SymFP(z3.FP('v', core.FP64))
         entry = P.ParameterEntry(Name=name_in, sValue=tok, raw_entry=f'{name_in}, SYMV')
+        if pv is not None:
+            prm.value = pv           # the object has been read into before (or starts from a value that is not its declared default)
         before = prm.value
         call = reader_call(layer, obj, model, mod, pname, entry)
         if layer == 'module':
@@ -297,7 +317,7 @@ def _one_param(log, cfg, modn, clsn, pname, layer, bg, alias=None):
     default = p0.DefaultValue
 
     def concrete(inp):
-        return concrete_read(modn, clsn, pname, layer, bg, inp['k'] if is_int else inp['v'], alias=alias)
+        return concrete_read(modn, clsn, pname, layer, bg, inp['k'] if is_int else inp['v'], alias=alias, prior=pv)
 
     def fp_inputs(model):
         return {'v': core.fp_model_value(model, zv['v'])}
@@ -338,8 +358,11 @@ def _one_param(log, cfg, modn, clsn, pname, layer, bg, alias=None):
                 _d(log, c, 'accepted: the stored value lies inside the documented range/set (never NaN/inf/out of range)', inr, zv, concrete, is_int,
                    sample=True)
             elif what == 'unchanged':
+                # a float that is passed over must BE the value the parameter holds afterwards; "equals the declared default" excuses nothing
+                # when the parameter held another value (initial value -1 = 'use the correlation' with default 5; an earlier read)
+                held_default = isinstance(before, (int, float)) and isinstance(default, (int, float)) and float(before) == float(default)
                 _d(log, c, 'ignored: only the documented sentinel/default (or the value already held) is passed over silently',
-                   z3.Or(is_default, is_before), zv, concrete, is_int)
+                   z3.Or(is_default, is_before) if (is_int or held_default) else is_before, zv, concrete, is_int)
             else:
                 # value was altered by post-read code (unit normalisation such as depth km->m): it must at least have been in range
                 _d(log, c, f'{what}: a value normalised after reading was inside the documented range', inr, zv, concrete, is_int)
@@ -420,10 +443,12 @@ def _int_module(log, cfg, modn, clsn, pname, bg, shadows):
 KNOWN_NORMALISED = {'Reservoir Depth', 'Reservoir Impedance'}
 
 
-def concrete_read(modn, clsn, pname, layer, bg, value, alias=None):
+def concrete_read(modn, clsn, pname, layer, bg, value, alias=None, prior=None):
     """replay on the real code, no proxies: returns (violated, detail)."""
     obj, model, mod = _make(modn, clsn)
     prm = obj.ParameterDict[pname]
+    if prior is not None:
+        prm.value = prior
     name = prm.Name.strip()
     name_in = alias or name
     is_int = isinstance(prm, P.intParameter)
@@ -463,7 +488,7 @@ def concrete_read(modn, clsn, pname, layer, bg, value, alias=None):
         bad = member or name not in str(exc) or not isinstance(exc, ValueError)
         return bool(bad), detail
     if member:
-        if not is_int and name not in KNOWN_NORMALISED and not sentinel and isinstance(after, (int, float)) and not isinstance(after, bool) and float(after) != v:
+        if not is_int and name not in KNOWN_NORMALISED and v != before and isinstance(after, (int, float)) and not isinstance(after, bool) and float(after) != v:
             detail['altered'] = 'an accepted in-range value was stored as a different number'
             return True, detail
         return False, detail
